@@ -23,6 +23,8 @@ def pyval(v):
     if t == "cont":
         k = KINDS[v[1]]
         return k({z: z for z in v[2]}) if k is dict else k(v[2])
+    if t == "nest":
+        return [list(l) for l in v[2]] if v[1] == 0 else {"k%d" % i: list(l) for i, l in enumerate(v[2])}
     raise ValueError(v)
 
 
@@ -40,6 +42,10 @@ def ser(x):
     if isinstance(x, TraceStack):
         names = list(x._stack_item_names())
         return ["stack", [{n: ser(v) for n, v in zip(names, fr)} for fr in x._stack]]
+    if type(x) is list and x and all(type(e) is list for e in x):
+        return ["nest", 0, [list(e) for e in x]]
+    if type(x) is dict and x and all(type(e) is list for e in x.values()):
+        return ["nest", 1, [list(e) for e in x.values()]]
     for k, ty in KINDS.items():
         if type(x) is ty:
             return ["cont", k, sorted(x) if ty is set else list(x)]
@@ -113,6 +119,8 @@ def run_case(case, idx):
                 r = ["done"]
             elif k == "append":
                 c = getattr(t, o[1])
+                if ser(c)[0] == "nest":
+                    raise AttributeError("append")        # the operation is defined for flat containers (appendin is the one for nested ones)
                 if isinstance(c, list):
                     c.append(o[2])
                 elif isinstance(c, dict):
@@ -121,6 +129,12 @@ def run_case(case, idx):
                     c.add(o[2])
                 else:
                     raise AttributeError("append")
+                r = ["done"]
+            elif k == "appendin":
+                c = getattr(t, o[1])
+                if not (type(c) in (list, dict) and c and all(type(e) is list for e in (c if type(c) is list else c.values()))):
+                    raise AttributeError("appendin")
+                (c[o[2]] if type(c) is list else list(c.values())[o[2]]).append(o[3])
                 r = ["done"]
             elif k == "read":
                 r = ["val", ser(getattr(t, o[1]).get_field(o[2], height=o[3]))]
